@@ -1,0 +1,13 @@
+//go:build verif
+
+package scheduler
+
+import "time"
+
+// VerifSetPause sets the polling pause of the scheduling loop. The loop
+// itself is untouched; only verification harnesses call this.
+func (sc *Scheduler) VerifSetPause(d time.Duration) {
+	sc.mu.Lock()
+	defer sc.mu.Unlock()
+	sc.pause = d
+}
